@@ -277,7 +277,7 @@ def gen_edge(rng, n, tier):
             m = rng.randint(1, 4)
             base = rand_geo(rng, model=False)
             pts = [[max(-180.0, min(180.0, base[0] + rng.uniform(-0.2, 0.2))), max(-89.9, min(89.9, base[1] + rng.uniform(-0.2, 0.2))), rng.uniform(-1000, 10000)] for _ in range(m)]
-            out.append({'kind': 'xtrack', 'pts': pts, 'base': base, 'base2': [max(-180.0, min(180.0, base[0] + rng.uniform(-3, 3))), max(-89.9, min(89.9, base[1] + rng.uniform(-3, 3))), rng.uniform(-100, 1000)]})
+            out.append({'kind': 'xtrack', 'pts': pts, 'base': base, 'via': rng.choice(['geo', 'ecef', 'ecef', 'rec']), 'base2': [max(-180.0, min(180.0, base[0] + rng.uniform(-3, 3))), max(-89.9, min(89.9, base[1] + rng.uniform(-3, 3))), rng.uniform(-100, 1000)]})
         else:
             m = rng.randint(1, 5)
             base = rand_geo(rng, model=False)
@@ -308,7 +308,14 @@ def run_edge(case):
         b2 = GeoCoords(*case['base2'])
         for i, p in enumerate(pts):
             tr.getObs(i).position = GeoCoords(*p).toENUCoords(b2)
-        tr.toGeoCoords(GeoCoords(*case['base2']))
+        if case.get('via') == 'ecef':              # ... to Earth-centred coordinates with the explicit base, and from there to geographic
+            tr.toECEFCoords(GeoCoords(*case['base2'])); tr.toGeoCoords()
+        elif case.get('via') == 'rec':             # ... or with no base given: the recorded one is used, and the track is local to it
+            for i, p in enumerate(pts):
+                tr.getObs(i).position = GeoCoords(*p).toENUCoords(GeoCoords(*case['base']))
+            tr.toECEFCoords(); tr.toGeoCoords()
+        else:
+            tr.toGeoCoords(GeoCoords(*case['base2']))
         return {'geo': [[o.position.getX(), o.position.getY(), o.position.getZ()] for o in tr], 'n': tr.size(), 'srid': tr.getSRID()}
     if case['kind'] == 'ptrack':
         obsl = [Obs(GeoCoords(*p), ObsTime.readUnixTime(1000 + 10 * i)) for i, p in enumerate(pts)]
